@@ -36,9 +36,16 @@ type shardLoader interface {
 	drop(filenames ...string)
 }
 
+// shardStamp is what scan remembers about a loaded shard: the modification
+// time of the shard file and of its ".meta" sidecar (zero if there is none).
+// A change of either means the shard has to be reloaded.
+type shardStamp struct {
+	shard, meta time.Time
+}
+
 type DirectoryWatcher struct {
 	dir        string
-	timestamps map[string]time.Time
+	timestamps map[string]shardStamp
 	loader     shardLoader
 
 	// closed once ready
@@ -62,7 +69,7 @@ func (sw *DirectoryWatcher) Stop() {
 func newDirectoryWatcher(dir string, loader shardLoader) (*DirectoryWatcher, error) {
 	sw := &DirectoryWatcher{
 		dir:        dir,
-		timestamps: map[string]time.Time{},
+		timestamps: map[string]shardStamp{},
 		loader:     loader,
 		ready:      make(chan struct{}),
 		quit:       make(chan struct{}),
@@ -145,7 +152,7 @@ func (s *DirectoryWatcher) scan() error {
 		}
 	}
 
-	ts := map[string]time.Time{}
+	ts := map[string]shardStamp{}
 	for _, fn := range fs {
 		if name, version := versionFromPath(fn); latest[name] != version {
 			continue
@@ -156,22 +163,24 @@ func (s *DirectoryWatcher) scan() error {
 			continue
 		}
 
-		ts[fn] = fi.ModTime()
+		stamp := shardStamp{shard: fi.ModTime()}
 
-		fiMeta, err := os.Lstat(fn + ".meta")
-		if err != nil {
-			continue
+		// Track the sidecar separately from the shard. Folding both into one
+		// "latest" timestamp misses a sidecar that is removed (or replaced by an
+		// older one) while the shard is the newer of the two, which is what a
+		// full re-index does: rename the new shard into place, then delete the
+		// old ".meta".
+		if fiMeta, err := os.Lstat(fn + ".meta"); err == nil {
+			stamp.meta = fiMeta.ModTime()
 		}
-		if fiMeta.ModTime().After(fi.ModTime()) {
-			ts[fn] = fiMeta.ModTime()
-		}
+		ts[fn] = stamp
 	}
 
 	var toLoad []string
-	for k, mtime := range ts {
-		if t, ok := s.timestamps[k]; !ok || t != mtime {
+	for k, stamp := range ts {
+		if t, ok := s.timestamps[k]; !ok || t != stamp {
 			toLoad = append(toLoad, k)
-			s.timestamps[k] = mtime
+			s.timestamps[k] = stamp
 		}
 	}
 
